@@ -1,9 +1,153 @@
 import QV.Driver.Util
+import QV.Model.Reader
+import QV.Spec.Reader
+import QV.Model.Rdata
+import QV.Spec.Rdata
 
+/-!
+  group `reader` — one line = one session:  `reader <msghex> <op>;<op>;…`
+  ops: hdr rq sq rr sr pk pks pkp mark rewind eom mtc
+  result: one element per op, joined by `;`, each `<result>@<cursor after the op>`.
+  spec column: same shape; `?` = the spec does not constrain this element beyond "no panic"
+  (lenient skipping of something that does not fully decode; everything after the position became
+  unknown); `!` = must panic (rewind without a mark, the one documented panic).
+-/
 namespace QV.Driver
-open QV
+open QV QV.Wire QV.Reader QV.Spec
 
-/-- ops of group `reader` — stub (not built yet) -/
-def readerHandler : Handler := fun _ _ => none
+/-- `Rdata::read` as used by the driver: the RDATA model of C18 -/
+def drvRdRead : RdRead := fun c t msg cur len =>
+  match Rdata.read c t msg cur len with
+  | .ok b => .ok b.toList
+  | .err e => .err e.toString
+  | .panic => .panic
+
+def showHdr (r : Reader) : String :=
+  let f {α} (o : Out ReaderErr α) (s : α → String) : String := match o with
+    | .ok a => s a | .err _ => "err" | .panic => "panic"
+  let b (x : Bool) := if x then "1" else "0"
+  s!"ok {f (msgId r) toString} {f (qr r) b} {f (opcode r) toString} {f (aa r) b} {f (tc r) b} {f (rd r) b} {f (ra r) b} {f (rcode r) toString} {f (qdcount r) toString} {f (ancount r) toString} {f (nscount r) toString} {f (arcount r) toString}"
+
+def showQ (q : Question) : String := s!"{hexOfList q.qname} {q.qtype} {q.qclass}"
+def showRr (x : Rr) : String := s!"{hexOfList x.owner} {x.rrType} {x.cls} {x.ttl} {hexOfList x.rdata}"
+
+def showPeek (p : PeekRr) : String :=
+  let f (o : Out ReaderErr Nat) : String := match o with
+    | .ok a => toString a | .err _ => "err" | .panic => "panic"
+  let own := match p.owner with
+    | .ok w => hexOfList w | .err e => "err:" ++ e.toString | .panic => "panic"
+  s!"{f p.rrType} {f p.cls} {f p.ttl} {f p.rawTtl} {f p.rdlength} {own}"
+
+def readerStep (rdr : RdRead) (r : Reader) (op : String) : String × Reader :=
+  let fin {α} (res : Out ReaderErr α × Reader) (s : α → String) : String × Reader :=
+    (showOut ReaderErr.toString s res.1 ++ s!"@{res.2.cursor}", res.2)
+  match op with
+  | "hdr" => (showHdr r ++ s!"@{r.cursor}", r)
+  | "rq" => fin (readQuestion r) showQ
+  | "sq" => fin (skipQuestion r) (fun _ => "")
+  | "rr" => fin (readRr rdr r) showRr
+  | "sr" => fin (skipRr r) (fun _ => "")
+  | "pk" => match peekRr r with
+    | .ok p => ("ok " ++ showPeek p ++ s!"@{r.cursor}", r)
+    | .err e => ("err:" ++ e.toString ++ s!"@{r.cursor}", r)
+    | .panic => (s!"panic@{r.cursor}", r)
+  | "pks" => match peekRr r with
+    | .ok p => (s!"ok @{p.skip.cursor}", p.skip)
+    | .err e => ("err:" ++ e.toString ++ s!"@{r.cursor}", r)
+    | .panic => (s!"panic@{r.cursor}", r)
+  | "pkp" => match peekRr r with
+    | .ok p => fin (p.parse rdr) showRr
+    | .err e => ("err:" ++ e.toString ++ s!"@{r.cursor}", r)
+    | .panic => (s!"panic@{r.cursor}", r)
+  | "mark" => (s!"ok @{r.cursor}", setMark r)
+  | "rewind" => match rewind r with
+    | .ok r' => (s!"ok @{r'.cursor}", r')
+    | _ => (s!"panic@{r.cursor}", r)
+  | "eom" => (s!"ok {if atEom r then 1 else 0}@{r.cursor}", r)
+  | "mtc" => match messageToCursor r with
+    | .ok b => (s!"ok {b.size}@{r.cursor}", r)
+    | _ => (s!"panic@{r.cursor}", r)
+  | _ => ("bad-op", r)
+
+/-- spec state: position (`none` = unknown), whether a mark is set, and its position if known -/
+structure SpecSt where
+  pos : Option Nat
+  markSet : Bool
+  markPos : Option Nat
+
+def specStep (rdspec : Nat → Nat → Bytes → Nat → Nat → Option (Option (List UInt8)))
+    (msg : Bytes) (st : SpecSt) (op : String) : String × SpecSt :=
+  match op with
+  | "mark" =>
+    ((match st.pos with | some p => s!"ok @{p}" | none => "?"), { st with markSet := true, markPos := st.pos })
+  | "rewind" =>
+    if st.markSet then
+      ((match st.markPos with | some m => s!"ok @{m}" | none => "?"),
+       { pos := st.markPos, markSet := false, markPos := none })
+    else
+      -- documented: rewinding without a mark panics
+      ((match st.pos with | some p => s!"panic@{p}" | none => "!"), st)
+  | _ =>
+  match st.pos with
+  | none => ("?", st)
+  | some pos =>
+    match op with
+    | "hdr" =>
+      let b (i : Nat) (mask : Nat) := if ((msg.getD i 0).toNat &&& mask) != 0 then "1" else "0"
+      let w (i : Nat) := (msg.getD i 0).toNat * 256 + (msg.getD (i+1) 0).toNat
+      (s!"ok {w 0} {b 2 128} {((msg.getD 2 0).toNat / 8) % 16} {b 2 4} {b 2 2} {b 2 1} {b 3 128} {(msg.getD 3 0).toNat % 16} {w 4} {w 6} {w 8} {w 10}@{pos}", st)
+    | "rq" => match specQuestionAt msg pos with
+      | some (w, t, c, nx) => (s!"ok {hexOfList w} {t} {c}@{nx}", { st with pos := some nx })
+      | none => (s!"err@{pos}", st)
+    | "sq" => match specQuestionAt msg pos with
+      | some (_, _, _, nx) => (s!"ok @{nx}", { st with pos := some nx })
+      | none => ("?", { st with pos := none })
+    | "sr" | "pks" => match specRrHeaderAt msg pos with
+      | some (_, _, _, _, _, _, nx) => (s!"ok @{nx}", { st with pos := some nx })
+      | none => ("?", { st with pos := none })
+    | "pk" => match specRrHeaderAt msg pos with
+      | some (w, t, c, ttl, _, rdlen, _) =>
+        let raw := match specField32 msg (pos + (match specDecodeName msg pos with | some (_, _, k) => k | none => 0) + 4) with
+          | some r => r | none => 0
+        (s!"ok {t} {c} {ttl} {raw} {rdlen} {hexOfList w}@{pos}", st)
+      | none => ("?", st)
+    | "rr" | "pkp" => match specRrHeaderAt msg pos with
+      | some (w, t, c, ttl, rdpos, rdlen, nx) =>
+        match rdspec c t msg rdpos rdlen with
+        | some (some rd) => (s!"ok {hexOfList w} {t} {c} {ttl} {hexOfList rd}@{nx}", { st with pos := some nx })
+        | some none => (s!"err@{pos}", st)
+        | none => ("?", { st with pos := none })
+      | none => (s!"err@{pos}", st)
+    | "eom" => (s!"ok {if pos ≥ msg.size then 1 else 0}@{pos}", st)
+    | "mtc" => (s!"ok {pos}@{pos}", st)
+    | _ => ("bad-op", st)
+
+/-- RDATA spec used by the reader's oracle: the executable RFC reading of C18 (`specRead`) -/
+def drvRdSpec : Nat → Nat → Bytes → Nat → Nat → Option (Option (List UInt8)) := fun c t msg cur len =>
+  some (Spec.specRead c t msg cur len)
+
+def readerHandler : Handler := fun op args =>
+  match op, args with
+  | "reader", [m, script] =>
+    match unhex m with
+    | some msg =>
+      let ops := script.splitOn ";"
+      let model : String := match tryFrom msg with
+        | .ok r0 =>
+          let (outs, _) := ops.foldl (fun (acc : List String × Reader) o =>
+            let (s, r') := readerStep drvRdRead acc.2 o
+            (s :: acc.1, r')) ([], r0)
+          ";".intercalate outs.reverse
+        | .err e => "err:" ++ e.toString
+        | .panic => "panic"
+      let spec : String :=
+        if msg.size < 12 then "err" else
+          let (outs, _) := ops.foldl (fun (acc : List String × SpecSt) o =>
+            let (s, st') := specStep drvRdSpec msg acc.2 o
+            (s :: acc.1, st')) ([], ⟨some 12, false, none⟩)
+          ";".intercalate outs.reverse
+      some (model, spec)
+    | none => some bad
+  | _, _ => none
 
 end QV.Driver
